@@ -219,7 +219,7 @@ def _parse_v(out):
 
 
 def _jsonable(c):
-    return {k: (sorted(v) if isinstance(v, (set, frozenset)) else v) for k, v in c.items()}
+    return {k: (sorted(v, key=str) if isinstance(v, (set, frozenset)) else v) for k, v in c.items()}
 
 
 def replay_file(path, obs_module, prop):
